@@ -97,8 +97,17 @@ func (e *Engine) stubOS(fn *ssa.Function, args []any) (any, bool) {
 		_, name := e.splitPath(args[0])
 		return name, true
 	case "os.MkdirTemp":
+		e.dirs["/tmp/vf-nodeenrollment-storage"] = true
 		return Tuple{"/tmp/vf-nodeenrollment-storage", IfaceV{}}, true
-	case "os.MkdirAll", "os.RemoveAll":
+	case "os.MkdirAll":
+		if d, ok := args[0].(string); ok {
+			for d != "/" && d != "." && d != "" { // the directory and all its parents exist from now on
+				e.dirs[d] = true
+				d = filepath.Dir(d)
+			}
+		}
+		return IfaceV{}, true
+	case "os.RemoveAll":
 		return IfaceV{}, true
 	case "os.WriteFile":
 		if en := e.fsFind(args[0]); en != nil {
@@ -125,6 +134,9 @@ func (e *Engine) stubOS(fn *ssa.Function, args []any) (any, bool) {
 		dir, ok := args[0].(string)
 		if !ok {
 			panic("file model: os.Open of a symbolic path")
+		}
+		if !e.dirs[dir] { // a directory nothing was ever stored in does not exist
+			return Tuple{nil, e.fsErr("open "+dir+": no such file or directory", true)}, true
 		}
 		return Tuple{newObj(&FileV{dir: dir}), IfaceV{}}, true
 	case "os.OpenFile":
